@@ -1108,3 +1108,402 @@ Proof.
   cbn [rx_run]. unfold set_cat, p_init. cbn [p_stack p_alts p_cat p_n].
   rewrite run_atoms by (cbn [p_stack length]; unfold rx_max_depth; lia). reflexivity.
 Qed.
+
+(* ================================================================== *)
+(* F. alternatives of literal words (the class of PathMatch.regex_match_words): parser and matcher *)
+
+(* what an expression matches, as a list of words: with ANY continuation whose success depends on the remaining text only *)
+Definition pmatch (P : text -> bool) (s w : text) : bool :=
+  match strip_prefix w s with Some s' => P s' | None => false end.
+Definition words_rx (r : regex) (ws : list text) : Prop :=
+  forall (P : text -> bool) (K : cont), (forall b s c, is_some (K b s c) = P s) ->
+  forall b s c, is_some (mt r b s c K) = existsb (pmatch P s) ws.
+(* .. and closed by kfin *)
+Definition tail_sem (P : text -> bool) (r : regex) (ws : list text) : Prop :=
+  forall b s c, is_some (mt r b s c kfin) = existsb (pmatch P s) ws.
+Definition is_nil (s : text) : bool := match s with [] => true | _ :: _ => false end.
+Definition all_t (s : text) : bool := true.
+
+Lemma mt_lit_sem : forall w r (P : text -> bool) K, (forall b s c, is_some (mt r b s c K) = P s) ->
+  forall b s c, is_some (mt (RLitThen w r) b s c K) = pmatch P s w.
+Proof.
+  intros w r P K H. induction w as [|c0 w IH]; intros b s c; cbn [RLitThen]; [apply H|].
+  rewrite mt_cat, mt_char. unfold pmatch. destruct s as [|x s]; [reflexivity|]. cbn [strip_prefix].
+  rewrite (Ascii.eqb_sym c0 x). destruct (Ascii.eqb x c0); [apply IH|reflexivity].
+Qed.
+Lemma pmatch_snoc : forall w0 cl (P : text -> bool) s,
+  pmatch (fun s1 => match s1 with x :: s' => Ascii.eqb x cl && P s' | [] => false end) s w0 = pmatch P s (w0 ++ [cl]).
+Proof.
+  unfold pmatch. induction w0 as [|c0 w0 IH]; intros cl P s; cbn [app strip_prefix].
+  - destruct s as [|x s]; [reflexivity|]. rewrite (Ascii.eqb_sym cl x). destruct (Ascii.eqb x cl); reflexivity.
+  - destruct s as [|x s]; [reflexivity|]. destruct (Ascii.eqb c0 x); [apply IH|reflexivity].
+Qed.
+Lemma words_lit : forall w0 cl, words_rx (RLitThen w0 (RChar cl)) [w0 ++ [cl]].
+Proof.
+  intros w0 cl P K HK b s c. cbn [existsb]. rewrite orb_false_r, <- pmatch_snoc.
+  apply mt_lit_sem. intros b0 s0 c0. rewrite mt_char. destruct s0 as [|x s0]; [reflexivity|].
+  destruct (Ascii.eqb x cl); [apply HK|reflexivity].
+Qed.
+Lemma words_group : forall n r ws, words_rx r ws -> words_rx (RGroup n r) ws.
+Proof. intros n r ws H P K HK b s c. rewrite mt_group. apply H. intros b0 s0 c0. apply HK. Qed.
+Lemma words_alt : forall r1 r2 w1 w2, words_rx r1 w1 -> words_rx r2 w2 -> words_rx (RAlt r1 r2) (w1 ++ w2).
+Proof.
+  intros r1 r2 w1 w2 H1 H2 P K HK b s c. rewrite mt_alt, existsb_app, <- (H1 P K HK b s c), <- (H2 P K HK b s c).
+  destruct (mt r1 b s c K); reflexivity.
+Qed.
+Lemma words_tail_all : forall r ws, words_rx r ws -> tail_sem all_t r ws.
+Proof. intros r ws H b s c. apply H. reflexivity. Qed.
+Lemma words_tail_end : forall r ws, words_rx r ws -> tail_sem is_nil (RCat r REnd) ws.
+Proof. intros r ws H b s c. rewrite mt_cat. apply H. intros b0 s0 c0. destruct s0; reflexivity. Qed.
+
+(* ---- the parser on words *)
+Definition wf (c : ascii) : regex * akind := (RChar c, AkRep).
+Definition word_toks (w : text) : list rtok := map (fun c => KAtom true (RChar c)) w.
+Definition paren (w : text) : text := "("%char :: w ++ [")"%char].
+
+Lemma safe_char_facts : forall c, is_safe_char c = true ->
+  is_ascii c = true /\ Ascii.eqb c "?"%char = false /\ Ascii.eqb c "("%char = false.
+Proof. intros c. destruct c as [[] [] [] [] [] [] [] []]; vm_compute; intros H; try discriminate H; repeat split. Qed.
+Lemma lex_word : forall w rest, safe w -> rx_lex LNorm (w ++ rest) = word_toks w ++ rx_lex LNorm rest.
+Proof.
+  induction w as [|c w IH]; intros rest Hs; [reflexivity|]. inversion Hs as [|c0 w0 Hc Hw]; subst.
+  cbn [app word_toks map]. rewrite lex_plain by (apply safe_plain, Hc).
+  destruct (safe_char_facts c Hc) as [Ha _]. rewrite Ha, IH by exact Hw. reflexivity.
+Qed.
+Lemma lex_open : forall c tl, Ascii.eqb c "?"%char = false ->
+  rx_lex LNorm ("("%char :: c :: tl) = KOpen true :: rx_lex LNorm (c :: tl).
+Proof. intros c tl H. cbn [rx_lex]. change (Ascii.eqb "("%char "\"%char) with false. change (Ascii.eqb "("%char "["%char) with false.
+  change (Ascii.eqb "("%char "("%char) with true. cbv iota. rewrite H. reflexivity. Qed.
+Lemma lex_close : forall tl, rx_lex LNorm (")"%char :: tl) = KClose :: rx_lex LNorm tl.
+Proof. reflexivity. Qed.
+Lemma lex_bar : forall tl, rx_lex LNorm ("|"%char :: tl) = KBar :: rx_lex LNorm tl.
+Proof. reflexivity. Qed.
+
+Lemma run_word : forall w ts stk al ct n,
+  rx_run (word_toks w ++ ts) {| p_stack := stk; p_alts := al; p_cat := ct; p_n := n |} =
+  rx_run ts {| p_stack := stk; p_alts := al; p_cat := rev (map wf w) ++ ct; p_n := n |}.
+Proof.
+  induction w as [|c w IH]; intros ts stk al ct n; [reflexivity|].
+  cbn [word_toks map app rx_run]. unfold set_cat. cbn [p_stack p_alts p_cat p_n]. fold (word_toks w).
+  rewrite IH. cbn [map rev]. rewrite <- app_assoc. reflexivity.
+Qed.
+Lemma fold_lit : forall w z, fold_left (fun acc (x : regex * akind) => RCat (fst x) acc) (rev (map wf w)) z = RLitThen w z.
+Proof.
+  induction w as [|c w IH]; intros z; [reflexivity|]. cbn [map rev]. rewrite fold_left_app. cbn [fold_left wf fst RLitThen].
+  rewrite IH. reflexivity.
+Qed.
+Lemma mk_cat_word : forall w, w <> [] -> words_rx (mk_cat (rev (map wf w))) [w].
+Proof.
+  intros w Hne. destruct (exists_last Hne) as [w0 [cl ->]]. rewrite map_app, rev_app_distr. cbn [map rev app mk_cat wf].
+  rewrite fold_lit. apply words_lit.
+Qed.
+
+(* an item of an alternation: a word, bare or in parentheses *)
+Definition item_ok (it : bool * text) : Prop := safe (snd it) /\ snd it <> [].
+Definition item_text (it : bool * text) : text := if fst it then paren (snd it) else snd it.
+Definition item_toks (it : bool * text) : list rtok :=
+  if fst it then KOpen true :: word_toks (snd it) ++ [KClose] else word_toks (snd it).
+Fixpoint alt_text (items : list (bool * text)) : text :=
+  match items with
+  | [] => []
+  | [it] => item_text it
+  | it :: rest => item_text it ++ "|"%char :: alt_text rest
+  end.
+Fixpoint alt_toks (items : list (bool * text)) : list rtok :=
+  match items with
+  | [] => []
+  | [it] => item_toks it
+  | it :: rest => item_toks it ++ KBar :: alt_toks rest
+  end.
+
+Lemma lex_item : forall it rest, item_ok it -> rx_lex LNorm (item_text it ++ rest) = item_toks it ++ rx_lex LNorm rest.
+Proof.
+  intros [par w] rest [Hs Hne]. cbn [fst snd] in *. unfold item_text, item_toks. cbn [fst snd]. destruct par.
+  - destruct w as [|c w]; [contradiction|]. inversion Hs as [|c0 w0 Hc Hw]; subst.
+    destruct (safe_char_facts c Hc) as [_ [Hq _]]. unfold paren. cbn [app]. rewrite lex_open by exact Hq.
+    rewrite <- app_assoc. change (c :: w ++ [")"%char] ++ rest) with ((c :: w) ++ ")"%char :: rest).
+    rewrite lex_word by exact Hs. rewrite lex_close, <- app_assoc. reflexivity.
+  - apply lex_word, Hs.
+Qed.
+Lemma lex_alt : forall items rest, Forall item_ok items ->
+  rx_lex LNorm (alt_text items ++ rest) = alt_toks items ++ rx_lex LNorm rest.
+Proof.
+  induction items as [|it items IH]; intros rest Hok; [reflexivity|]. inversion Hok as [|i0 l0 Hit Hrest]; subst.
+  destruct items as [|it2 items].
+  - cbn [alt_text alt_toks]. apply lex_item, Hit.
+  - change (alt_text (it :: it2 :: items)) with (item_text it ++ "|"%char :: alt_text (it2 :: items)).
+    change (alt_toks (it :: it2 :: items)) with (item_toks it ++ KBar :: alt_toks (it2 :: items)).
+    rewrite <- !app_assoc, lex_item by exact Hit. cbn [app]. rewrite lex_bar, IH by exact Hrest. reflexivity.
+Qed.
+
+Lemma run_item : forall it ts stk al n, item_ok it -> length stk < rx_max_depth ->
+  exists catl n',
+    rx_run (item_toks it ++ ts) {| p_stack := stk; p_alts := al; p_cat := []; p_n := n |} =
+    rx_run ts {| p_stack := stk; p_alts := al; p_cat := catl; p_n := n' |} /\ words_rx (mk_cat catl) [snd it].
+Proof.
+  intros [par w] ts stk al n [Hs Hne] Hd. cbn [fst snd] in *. unfold item_toks. cbn [fst snd]. destruct par.
+  - exists [(RGroup (S n) (mk_cat (rev (map wf w))), AkRep)], (S n). split.
+    + cbn [app rx_run p_stack p_alts p_cat p_n].
+      replace (Nat.leb rx_max_depth (length stk)) with false by (symmetry; apply Nat.leb_gt; exact Hd).
+      rewrite <- app_assoc, run_word. cbn [app rx_run p_stack p_alts p_cat p_n f_cap f_alts f_cat mk_alt fold_left].
+      rewrite app_nil_r. reflexivity.
+    + cbn [mk_cat fold_left]. apply words_group, mk_cat_word, Hne.
+  - exists (rev (map wf w)), n. split.
+    + rewrite run_word, app_nil_r. reflexivity.
+    + apply mk_cat_word, Hne.
+Qed.
+
+(* the branches read so far (reversed), as words: whatever the last branch will be *)
+Definition acc_sem (acc : list regex) (wsacc : list text) : Prop :=
+  forall last wl, words_rx last wl -> words_rx (mk_alt last acc) (wsacc ++ wl).
+Lemma acc_sem_nil : acc_sem [] [].
+Proof. intros last wl H. exact H. Qed.
+Lemma acc_sem_cons : forall acc wsacc x wx, acc_sem acc wsacc -> words_rx x wx -> acc_sem (x :: acc) (wsacc ++ wx).
+Proof.
+  intros acc wsacc x wx Ha Hx last wl Hl. unfold mk_alt. cbn [fold_left]. fold (mk_alt (RAlt x last) acc).
+  rewrite <- app_assoc. apply Ha, words_alt; assumption.
+Qed.
+
+Lemma run_alt : forall items ts stk acc n wsacc, items <> [] -> Forall item_ok items ->
+  length stk < rx_max_depth -> acc_sem acc wsacc ->
+  exists catl acc' n',
+    rx_run (alt_toks items ++ ts) {| p_stack := stk; p_alts := acc; p_cat := []; p_n := n |} =
+    rx_run ts {| p_stack := stk; p_alts := acc'; p_cat := catl; p_n := n' |} /\
+    words_rx (mk_alt (mk_cat catl) acc') (wsacc ++ map snd items).
+Proof.
+  induction items as [|it items IH]; intros ts stk acc n wsacc Hne Hok Hd Ha; [contradiction|].
+  inversion Hok as [|i0 l0 Hit Hrest]; subst. destruct items as [|it2 items].
+  - destruct (run_item it ts stk acc n Hit Hd) as [catl [n' [Hr Hw]]].
+    exists catl, acc, n'. split; [exact Hr|]. cbn [map]. apply Ha, Hw.
+  - change (alt_toks (it :: it2 :: items)) with (item_toks it ++ KBar :: alt_toks (it2 :: items)).
+    rewrite <- app_assoc. destruct (run_item it ((KBar :: alt_toks (it2 :: items)) ++ ts) stk acc n Hit Hd) as [catl [n1 [Hr Hw]]].
+    rewrite Hr. cbn [app rx_run p_stack p_alts p_cat p_n].
+    destruct (IH ts stk (mk_cat catl :: acc) n1 (wsacc ++ [snd it]) ltac:(discriminate) Hrest Hd (acc_sem_cons _ _ _ _ Ha Hw))
+      as [catl2 [acc2 [n2 [Hr2 Hw2]]]].
+    exists catl2, acc2, n2. split; [exact Hr2|]. cbn [map]. rewrite <- app_assoc in Hw2. exact Hw2.
+Qed.
+
+(* an unanchored alternation *)
+Theorem rx_compile_alt : forall items, items <> [] -> Forall item_ok items ->
+  exists Y, rx_compile (alt_text items) = RxOk Y /\ words_rx Y (map snd items).
+Proof.
+  intros items Hne Hok. unfold rx_compile. rewrite <- (app_nil_r (alt_text items)), lex_alt by exact Hok.
+  cbn [rx_lex]. unfold p_init.
+  destruct (run_alt items [] [] [] 0 [] Hne Hok ltac:(cbn [length]; unfold rx_max_depth; lia) acc_sem_nil)
+    as [catl [acc' [n' [Hr Hw]]]].
+  rewrite Hr. cbn [rx_run p_stack p_cat p_alts]. eexists. split; [reflexivity|exact Hw].
+Qed.
+
+(* the core of an anchored pattern - one bare word, or an alternation in one pair of parentheses - read after
+   cat0 (nothing, or the `^`): it adds the items catc to the concatenation *)
+Definition core_sem (catc : list (regex * akind)) (ws : list text) : Prop :=
+  catc <> [] /\ tail_sem all_t (mk_cat catc) ws /\
+  tail_sem is_nil (fold_left (fun acc (x : regex * akind) => RCat (fst x) acc) catc REnd) ws.
+Definition core_runs (ctoks : list rtok) (ws : list text) : Prop :=
+  forall ts cat0, exists catc n',
+    rx_run (ctoks ++ ts) {| p_stack := []; p_alts := []; p_cat := cat0; p_n := 0 |} =
+    rx_run ts {| p_stack := []; p_alts := []; p_cat := catc ++ cat0; p_n := n' |} /\ core_sem catc ws.
+
+Lemma core_word : forall w, w <> [] -> core_runs (word_toks w) [w].
+Proof.
+  intros w Hne ts cat0. exists (rev (map wf w)), 0. split; [apply run_word|]. split; [|split].
+  - intros H. apply (f_equal (@length _)) in H. rewrite rev_length, map_length in H. destruct w; [contradiction|discriminate].
+  - apply words_tail_all, mk_cat_word, Hne.
+  - rewrite fold_lit. intros b s c. cbn [existsb]. rewrite orb_false_r. apply mt_lit_sem.
+    intros b0 s0 c0. destruct s0; reflexivity.
+Qed.
+Lemma core_paren : forall items, items <> [] -> Forall item_ok items ->
+  core_runs (KOpen true :: alt_toks items ++ [KClose]) (map snd items).
+Proof.
+  intros items Hne Hok ts cat0. cbn [app rx_run p_stack p_alts p_cat p_n length]. change (Nat.leb rx_max_depth 0) with false. cbv iota.
+  rewrite <- app_assoc.
+  destruct (run_alt items ([KClose] ++ ts) [{| f_cap := Some 1; f_alts := []; f_cat := cat0 |}] [] 1 [] Hne Hok
+              ltac:(cbn [length]; unfold rx_max_depth; lia) acc_sem_nil) as [catl [acc' [n' [Hr Hw]]]].
+  rewrite Hr. cbn [app rx_run p_stack p_alts p_cat p_n f_cap f_alts f_cat].
+  exists [(RGroup 1 (mk_alt (mk_cat catl) acc'), AkRep)], n'. split; [reflexivity|]. cbn [app] in Hw.
+  pose proof (words_group 1 _ _ Hw) as Hg. split; [discriminate|]. split.
+  - cbn [mk_cat fold_left]. apply words_tail_all, Hg.
+  - cbn [fold_left fst]. apply words_tail_end, Hg.
+Qed.
+
+Lemma lex_hat : forall tl, rx_lex LNorm ("^"%char :: tl) = KAtom false RStart :: rx_lex LNorm tl.
+Proof. reflexivity. Qed.
+Lemma lex_dollar : rx_lex LNorm ["$"%char] = [KAtom false REnd].
+Proof. reflexivity. Qed.
+
+(* the pattern [^] core [$] *)
+Theorem rx_compile_anchored : forall (a_start a_end : bool) ctext ctoks ws,
+  (forall rest, rx_lex LNorm (ctext ++ rest) = ctoks ++ rx_lex LNorm rest) -> core_runs ctoks ws ->
+  exists Y, rx_compile ((if a_start then ["^"%char] else []) ++ ctext ++ (if a_end then ["$"%char] else [])) =
+            RxOk (if a_start then RCat RStart Y else Y) /\
+            tail_sem (if a_end then is_nil else all_t) Y ws.
+Proof.
+  intros a_start a_end ctext ctoks ws Hlex Hrun. unfold rx_compile, p_init.
+  destruct a_start, a_end; cbn [app]; rewrite ?lex_hat, Hlex, ?lex_dollar; cbn [rx_lex rx_run]; unfold set_cat; cbn [p_stack p_alts p_cat p_n].
+  - destruct (Hrun [KAtom false REnd] [(RStart, AkNoRep)]) as [catc [n' [Hr [Hne [_ He]]]]]. rewrite Hr.
+    cbn [rx_run]. unfold set_cat. cbn [rx_run p_stack p_alts p_cat p_n mk_alt fold_left mk_cat].
+    rewrite fold_left_app. cbn [fold_left fst]. eexists. split; [reflexivity|exact He].
+  - destruct (Hrun [] [(RStart, AkNoRep)]) as [catc [n' [Hr [Hne [Ha _]]]]]. rewrite Hr.
+    cbn [rx_run p_stack p_alts p_cat p_n mk_alt fold_left]. destruct catc as [|[z kz] before]; [contradiction|].
+    cbn [app mk_cat]. rewrite fold_left_app. cbn [fold_left fst]. eexists. split; [reflexivity|exact Ha].
+  - destruct (Hrun [KAtom false REnd] []) as [catc [n' [Hr [Hne [_ He]]]]]. rewrite Hr.
+    cbn [rx_run]. unfold set_cat. cbn [rx_run p_stack p_alts p_cat p_n mk_alt fold_left mk_cat]. rewrite app_nil_r.
+    eexists. split; [reflexivity|exact He].
+  - destruct (Hrun [] []) as [catc [n' [Hr [Hne [Ha _]]]]]. rewrite Hr.
+    cbn [rx_run p_stack p_alts p_cat p_n mk_alt fold_left]. rewrite app_nil_r. eexists. split; [reflexivity|exact Ha].
+Qed.
+
+(* ---- the search *)
+Fixpoint ex_suffix (Q : text -> bool) (s : text) : bool :=
+  match s with [] => Q [] | _ :: s' => Q s || ex_suffix Q s' end.
+Lemma match_any : forall P Y ws, tail_sem P Y ws ->
+  forall k, rx_is_match Y k = ex_suffix (fun s => existsb (pmatch P s) ws) k.
+Proof.
+  intros P Y ws H k. unfold rx_is_match, rx_find.
+  assert (Hs : forall s b g, is_some (search Y b s g) = ex_suffix (fun s0 => existsb (pmatch P s0) ws) s).
+  { induction s as [|x s IH]; intros b g; cbn [search ex_suffix]; rewrite <- (H b _ []).
+    - destruct (mt Y b [] [] kfin) as [[[b1 s1] c]|]; reflexivity.
+    - destruct (mt Y b (x :: s) [] kfin) as [[[b1 s1] c]|]; [reflexivity|]. cbn [is_some orb]. apply IH. }
+  specialize (Hs k [] []). destruct (search Y [] k []); exact Hs.
+Qed.
+Lemma match_start : forall P Y ws, tail_sem P Y ws ->
+  forall k, rx_is_match (RCat RStart Y) k = existsb (pmatch P k) ws.
+Proof.
+  intros P Y ws H k. unfold rx_is_match, rx_find. rewrite <- (H [] k []).
+  assert (Hm : mt (RCat RStart Y) [] k [] kfin = mt Y [] k [] kfin) by (rewrite mt_cat; reflexivity).
+  destruct (mt Y [] k [] kfin) as [[[b1 s1] c]|] eqn:E.
+  - rewrite (search_hit _ _ _ _ _ _ Hm). reflexivity.
+  - destruct k as [|x k].
+    + rewrite search_end by exact Hm. reflexivity.
+    + rewrite (search_miss _ _ _ _ Hm), search_start_later by discriminate. reflexivity.
+Qed.
+
+(* the four readings of the model *)
+Lemma pmatch_all : forall k w, pmatch all_t k w = is_prefix w k.
+Proof. intros k w. unfold pmatch, all_t. rewrite is_prefix_strip. destruct (strip_prefix w k); reflexivity. Qed.
+Lemma pmatch_nil : forall k w, pmatch is_nil k w = teqb w k.
+Proof.
+  intros k w. unfold pmatch. revert k. induction w as [|c w IH]; intros k; cbn [strip_prefix teqb].
+  - destruct k; reflexivity.
+  - destruct k as [|d k]; [reflexivity|]. destruct (Ascii.eqb c d); [apply IH|reflexivity].
+Qed.
+Lemma existsb_orb : forall {A} (f g : A -> bool) l, existsb (fun x => f x || g x) l = existsb f l || existsb g l.
+Proof.
+  intros A f g. induction l as [|x l IH]; [reflexivity|]. cbn [existsb]. rewrite IH.
+  destruct (f x), (g x), (existsb f l); reflexivity.
+Qed.
+Lemma ex_suffix_existsb : forall (Q : text -> text -> bool) ws k,
+  ex_suffix (fun s => existsb (Q s) ws) k = existsb (fun w => ex_suffix (fun s => Q s w) k) ws.
+Proof.
+  intros Q ws. induction k as [|x k IH]; cbn [ex_suffix]; [reflexivity|]. rewrite IH, <- existsb_orb. reflexivity.
+Qed.
+Lemma ex_suffix_infix : forall w k, ex_suffix (fun s => is_prefix w s) k = is_infix w k.
+Proof.
+  intros w. induction k as [|x k IH]; cbn [ex_suffix is_infix]; [destruct w; reflexivity|]. rewrite IH. reflexivity.
+Qed.
+Lemma ex_suffix_spec : forall Q k, ex_suffix Q k = true <-> exists p s, k = p ++ s /\ Q s = true.
+Proof.
+  intros Q. induction k as [|x k IH]; cbn [ex_suffix].
+  - split; [intros H; exists [], []; split; [reflexivity|exact H]|].
+    intros [p [s [E H]]]. destruct p; [|discriminate]. cbn [app] in E. subst s. exact H.
+  - rewrite orb_true_iff, IH. split.
+    + intros [H|[p [s [E H]]]]; [exists [], (x :: k); split; [reflexivity|exact H]|]. exists (x :: p), s. subst k. split; [reflexivity|exact H].
+    + intros [p [s [E H]]]. destruct p as [|y p]; [cbn [app] in E; subst s; left; exact H|].
+      cbn [app] in E. injection E as -> ->. right. exists p, s. split; [reflexivity|exact H].
+Qed.
+Lemma ex_suffix_suffix : forall w k, ex_suffix (fun s => teqb w s) k = is_prefix (rev w) (rev k).
+Proof.
+  intros w k. apply Bool.eq_iff_eq_true. rewrite ex_suffix_spec, is_prefix_spec. split.
+  - intros [p [s [E H]]]. apply teqb_eq in H. subst s k. exists (rev p). apply rev_app_distr.
+  - intros [t E]. exists (rev t), w. split; [|apply teqb_refl].
+    rewrite <- (rev_involutive k), E, rev_app_distr, rev_involutive. reflexivity.
+Qed.
+
+(* ---- reading the text back: split_bar / strip_parens *)
+Fixpoint join_bar (l : list text) : text :=
+  match l with
+  | [] => []
+  | [x] => x
+  | x :: l' => x ++ "|"%char :: join_bar l'
+  end.
+Lemma split_bar_nonempty : forall s cur, split_bar s cur <> [].
+Proof. induction s as [|c s IH]; intros cur; cbn [split_bar]; [discriminate|]. destruct (Ascii.eqb c "|"%char); [discriminate|apply IH]. Qed.
+Lemma split_bar_join : forall s cur, join_bar (split_bar s cur) = rev cur ++ s.
+Proof.
+  induction s as [|c s IH]; intros cur; cbn [split_bar]; [cbn [join_bar]; rewrite app_nil_r; reflexivity|].
+  destruct (Ascii.eqb c "|"%char) eqn:E.
+  - apply Ascii.eqb_eq in E. subst c. pose proof (split_bar_nonempty s []) as Hne. specialize (IH []).
+    destruct (split_bar s []) as [|y l]; [contradiction|]. cbn [join_bar]. cbn [join_bar rev app] in IH. rewrite IH. reflexivity.
+  - rewrite IH. cbn [rev]. rewrite <- app_assoc. reflexivity.
+Qed.
+Lemma strip_parens_cases : forall x, strip_parens x = x \/ x = paren (strip_parens x).
+Proof.
+  intros [|c r]; [left; reflexivity|]. cbn [strip_parens]. destruct (Ascii.eqb c "("%char) eqn:Ec; [|left; reflexivity].
+  apply Ascii.eqb_eq in Ec. subst c. destruct (rev r) as [|d m] eqn:Er; [left; reflexivity|].
+  destruct (Ascii.eqb d ")"%char) eqn:Ed; [|left; reflexivity]. apply Ascii.eqb_eq in Ed. subst d. right.
+  unfold paren. f_equal. rewrite <- (rev_involutive r), Er. reflexivity.
+Qed.
+Definition mkitem (x : text) : bool * text := (negb (teqb (strip_parens x) x), strip_parens x).
+Lemma mkitem_text : forall x, item_text (mkitem x) = x.
+Proof.
+  intros x. unfold mkitem, item_text. cbn [fst snd]. destruct (teqb (strip_parens x) x) eqn:E; cbn [negb].
+  - apply teqb_eq, E.
+  - destruct (strip_parens_cases x) as [H|H]; [rewrite H, teqb_refl in E; discriminate|symmetry; exact H].
+Qed.
+Lemma alt_text_mkitems : forall xs, alt_text (map mkitem xs) = join_bar xs.
+Proof.
+  induction xs as [|x xs IH]; [reflexivity|]. destruct xs as [|y xs].
+  - cbn [map alt_text join_bar]. apply mkitem_text.
+  - change (alt_text (map mkitem (x :: y :: xs))) with (item_text (mkitem x) ++ "|"%char :: alt_text (map mkitem (y :: xs))).
+    rewrite IH, mkitem_text. reflexivity.
+Qed.
+Lemma mkitems_ok : forall xs, forallb safe_word (map strip_parens xs) = true -> Forall item_ok (map mkitem xs).
+Proof.
+  induction xs as [|x xs IH]; intros H; [constructor|]. cbn [map forallb] in H. apply andb_true_iff in H. destruct H as [Hx Hxs].
+  constructor; [|apply IH, Hxs]. apply safe_word_safe in Hx. destruct Hx as [Hne Hs]. split; [exact Hs|exact Hne].
+Qed.
+Lemma mkitems_words : forall xs, map snd (map mkitem xs) = map strip_parens xs.
+Proof. intros xs. rewrite map_map. reflexivity. Qed.
+Lemma ex_suffix_ext : forall (Q Q' : text -> bool) k, (forall s, Q s = Q' s) -> ex_suffix Q k = ex_suffix Q' k.
+Proof. intros Q Q' k H. induction k as [|x k IH]; cbn [ex_suffix]; [apply H|]. rewrite H, IH. reflexivity. Qed.
+(* [^] Y [$] read as the model reads it *)
+Theorem model_reading : forall (a_start a_end : bool) Y ws k, tail_sem (if a_end then is_nil else all_t) Y ws ->
+  rx_is_match (if a_start then RCat RStart Y else Y) k =
+  existsb (fun w => match a_start, a_end with
+                    | true, true => teqb w k
+                    | true, false => is_prefix w k
+                    | false, true => is_prefix (rev w) (rev k)
+                    | false, false => is_infix w k
+                    end) ws.
+Proof.
+  intros a_start a_end Y ws k Ht. destruct a_start, a_end.
+  - rewrite (match_start _ _ _ Ht). apply existsb_ext_pt. intros w. apply pmatch_nil.
+  - rewrite (match_start _ _ _ Ht). apply existsb_ext_pt. intros w. apply pmatch_all.
+  - rewrite (match_any _ _ _ Ht), ex_suffix_existsb. apply existsb_ext_pt. intros w.
+    rewrite <- ex_suffix_suffix. apply ex_suffix_ext. intros s. apply pmatch_nil.
+  - rewrite (match_any _ _ _ Ht), ex_suffix_existsb. apply existsb_ext_pt. intros w.
+    rewrite <- ex_suffix_infix. apply ex_suffix_ext. intros s. apply pmatch_all.
+Qed.
+Lemma alt_text_head : forall items, items <> [] -> Forall item_ok items ->
+  exists c tl, alt_text items = c :: tl /\ Ascii.eqb c "?"%char = false.
+Proof.
+  intros [|[par w] rest] Hne Hok; [contradiction|]. inversion Hok as [|i0 l0 [Hs Hw] Hrest]; subst. cbn [fst snd] in *.
+  assert (Hit : exists c tl, item_text (par, w) = c :: tl /\ Ascii.eqb c "?"%char = false).
+  { unfold item_text. cbn [fst snd]. destruct par.
+    - exists "("%char, (w ++ [")"%char]). split; reflexivity.
+    - destruct w as [|c w]; [contradiction|]. inversion Hs as [|c0 w0 Hc Hw0]; subst. exists c, w. split; [reflexivity|].
+      apply (safe_char_facts c Hc). }
+  destruct Hit as [c [tl [E Hc]]]. destruct rest as [|it2 rest].
+  - exists c, tl. split; [exact E|exact Hc].
+  - exists c, (tl ++ "|"%char :: alt_text (it2 :: rest)). split; [|exact Hc].
+    change (alt_text ((par, w) :: it2 :: rest)) with (item_text (par, w) ++ "|"%char :: alt_text (it2 :: rest)). rewrite E. reflexivity.
+Qed.
+Lemma lex_paren_alt : forall items rest, items <> [] -> Forall item_ok items ->
+  rx_lex LNorm (paren (alt_text items) ++ rest) = (KOpen true :: alt_toks items ++ [KClose]) ++ rx_lex LNorm rest.
+Proof.
+  intros items rest Hne Hok. destruct (alt_text_head items Hne Hok) as [c [tl [E Hc]]].
+  unfold paren. cbn [app]. rewrite <- !app_assoc.
+  assert (Ho : forall tl2, rx_lex LNorm ("("%char :: alt_text items ++ tl2) = KOpen true :: rx_lex LNorm (alt_text items ++ tl2)).
+  { intros tl2. rewrite E. cbn [app]. apply lex_open, Hc. }
+  rewrite Ho, lex_alt by exact Hok. cbn [app]. rewrite lex_close. reflexivity.
+Qed.
